@@ -17,7 +17,8 @@ CFG = dict(
           dict(test="TestC09MuxClose", timeout_quick=200, timeout_thorough=300),
           dict(test="TestC09WriteStall", timeout_quick=200, timeout_thorough=300),
           dict(test="TestC09Storm", timeout_quick=300, timeout_thorough=900)],
-    reason_text={"12": "stuck read loop: the read failure was injected, every stream of the scenario is gone, yet at a quiescent point the multiplexer's read loop is still alive: it never notices the transport closing and every call waiting for a reply waits for ever",
+    reason_text={"13": "a stream's RecvMsg reported the clean end io.EOF although no envelope that ends the stream with an OK status (a trailer) had been delivered for its id: the messages behind that point are lost",
+                 "12": "stuck read loop: the read failure was injected, every stream of the scenario is gone, yet at a quiescent point the multiplexer's read loop is still alive: it never notices the transport closing and every call waiting for a reply waits for ever",
                  "11": "wedged: the scenario could not be run to its end - a goroutine of the client waits for a lock for ever; every call behind that lock hangs, also after the connection has failed",
                  "1": "the real client's observation differs from every outcome of the Gallina model (Model/Client.v, all orders of internal rules)",
                  "3": "a unary call's result is not what the first delivered envelope carrying its id says",
